@@ -475,8 +475,8 @@ def unit_shapes(log):
     shapes = {}
     for e in log:
         u = e.get('unit')
-        if not u:
-            continue
+        if not u or e.get('rule') == 'R12':
+            continue        # R12 (macro metavariable -> its argument) is a substitution, not a change of shape
         n = len(e.get('matches') or [1])
         d = shapes.setdefault(u, {})
         d[e.get('rule', '?')] = d.get(e.get('rule', '?'), 0) + n
